@@ -536,3 +536,30 @@ M("c13-straight-corner-swapped", "C13", "cola/libtopology/topology_constraints_c
 M("c13-offset-sign-y", "C13", "cola/libtopology/topology_graph.cpp",
   "        (dim==vpsc::YDIM && (rectIntersect == BL || rectIntersect == BR)))", "        (dim==vpsc::YDIM && (rectIntersect == BL || rectIntersect == TL)))",
   mention=["CORNER-TABLES", "offset"])
+
+# ---------------------------------------------------------------- C20
+M("c20-cmpnodepos-address", "C20", "cola/libvpsc/rectangle.cpp",
+  "    if (u->v->id != v->v->id) {\n        return u->v->id < v->v->id;\n    }\n    return u < v;", "    return u < v;", mention=["PTR-ORDER-CMP", "vpsc::CmpNodePos"])
+M("c20-new-pointer-set-iteration", "C20", "cola/libavoid/router.cpp",
+  "    ConnRefList reroutedConns;\n    ConnRefList::const_iterator fin = connRefs.end();",
+  "    ConnRefList reroutedConns;\n    { std::set<ConnRef *> seen(connRefs.begin(), connRefs.end()); for (std::set<ConnRef *>::iterator s = seen.begin(); s != seen.end(); ++s) { (*s)->freeActivePins(); } }\n    ConnRefList::const_iterator fin = connRefs.end();",
+  mention=["PTR-ORDER-CONTAINER", "Avoid::Router::rerouteAndCallbackConnectors"])
+M("c20-rand-in-library", "C20", "cola/libcola/colafd.cpp",
+  "void ConstrainedFDLayout::makeFeasible(double xBorder, double yBorder)\n{\n", "void ConstrainedFDLayout::makeFeasible(double xBorder, double yBorder)\n{\n    if (rand() % 1000000 == 999999) { xBorder += 1e-9; }\n",
+  mention=["NONDET-SOURCES"])
+M("c20-static-local-cache", "C20", "cola/libavoid/geometry.cpp",
+  "double euclideanDist(const Point& a, const Point& b)\n{\n", "double euclideanDist(const Point& a, const Point& b)\n{\n    static double lastResult = 0; lastResult += 1;\n",
+  mention=["GLOBAL-STATE"])
+M("c20-border-not-restored", "C20", "cola/libcola/gradient_projection.cpp",
+  "                generateXConstraints(*rs,vars,lcs,nonOverlapConstraints==Both?true:false); \n                Rectangle::setXBorder(0);",
+  "                generateXConstraints(*rs,vars,lcs,nonOverlapConstraints==Both?true:false); \n                if (nonOverlapConstraints==Both) Rectangle::setXBorder(0);",
+  mention=["GLOBAL-STATE", "border setter"])
+M("c20-prng-time-seed", "C20", "cola/libcola/pseudorandom.cpp",
+  "double PseudoRandom::getNext(void)\n{\n", "double PseudoRandom::getNext(void)\n{\n    static int calls = 0; seed += (++calls);\n", mention=["SEEDED-PRNG"])
+M("c20-sort-pointers-default", "C20", "cola/libavoid/router.cpp",
+  "    ConnRefList reroutedConns;\n    ConnRefList::const_iterator fin = connRefs.end();",
+  "    ConnRefList reroutedConns;\n    { std::vector<ConnRef *> tmp(connRefs.begin(), connRefs.end()); std::sort(tmp.begin(), tmp.end()); if (!tmp.empty()) tmp.front()->freeActivePins(); }\n    ConnRefList::const_iterator fin = connRefs.end();",
+  mention=["PTR-ORDER-MISC"])
+M("c20-neutral-id-order", "C20", "cola/libavoid/router.cpp",
+  "        if (lhs->id() != rhs->id())\n        {\n            return lhs->id() < rhs->id();\n        }\n        // IDs are unique within a router, so this is only a last resort.\n        return lhs < rhs;",
+  "        const unsigned int lid = lhs->id(), rid = rhs->id();\n        if (lid != rid)\n        {\n            return lid < rid;\n        }\n        return lhs < rhs;", expect="silent")
